@@ -85,6 +85,8 @@ def tasks(tier, seed):
                 # around the centre of the Gaussian term) plus everything above 450 C; the thorough tier all of it.
                 if tier != 'thorough':
                     continue            # 20-60 s per obligation (degree 81, huge rationals): thorough tier only
+                if not any(x.get('kind') == 'invmono' and x['type'] == t for x in ts):
+                    ts.append(dict(kind='invmono', type=t, vlo=-0.5, vhi=55.0))
                 for x in [0, 60, 120, 190, 300, 440]:
                     if x < b:
                         ts.append(dict(kind='inverse', type=t, lo=x, hi=min(x + 10, b), nsub=10))
@@ -308,14 +310,18 @@ def run_task(task):
                 if m is not None:
                     raise Violation(dict(what='inverse-error', inputs=dict(T=str(m.eval(T, True))), type=t,
                                          error=str(m.eval(d, True)), note='exp enclosed: candidate only'))
-            # lemma: the inverse function is increasing in the voltage over the voltages reachable here
-            vv = z3.Real('v')
-            v_lo = z3.substitute(v.e, *[(x, _fx(e_lo)) for x in apps]) if apps else v.e
-            v_hi = z3.substitute(v.e, *[(x, _fx(e_hi)) for x in apps]) if apps else v.e
-            dq = tc.mv_to_celsius(rarr([Dual(vv, z3.RealVal(1))]))[0]
-            m = _nra(ctx, [vv >= v_lo, vv <= v_hi, dq.d <= 0], 'inverse monotone lemma')
-            if m is not None:
-                raise Violation(dict(what='inverse-not-increasing', inputs=dict(T=str(m.eval(T, True))), type=t))
+        ctx.note('inverse')
+
+    def invmono(ctx):
+        # lemma used by the type K endpoint argument: the inverse function is increasing in the voltage on the whole
+        # voltage range of the type (one-variable obligation per inverse piece)
+        vv = z3.Real('v')
+        ctx.inputs['v'] = vv
+        ctx.add(z3.And(vv >= _fx(task['vlo']), vv <= _fx(task['vhi'])))
+        dq = tc.mv_to_celsius(rarr([Dual(vv, z3.RealVal(1))]))[0]
+        m = _nra(ctx, [dq.d <= 0], 'inverse monotone lemma')
+        if m is not None:
+            raise Violation(dict(what='inverse-not-increasing', inputs=dict(v=str(m.eval(vv, True))), type=t))
         ctx.note('inverse')
 
     def scaling(ctx):
@@ -343,7 +349,7 @@ def run_task(task):
                                  direction=task['direction']))
         ctx.note('scaling-direction')
 
-    fn = dict(forward=forward, total=total, continuity=continuity, monotone=monotone, inverse=inverse, scaling=scaling)[kind]
+    fn = dict(forward=forward, total=total, continuity=continuity, monotone=monotone, inverse=inverse, scaling=scaling, invmono=invmono)[kind]
     st = explore(fn, max_paths=2000, time_budget=1500)
     st.pop('wall_s', None)
     return st
